@@ -11,29 +11,22 @@ Proof.
   - intros H. inversion H; subst. rewrite Nat.eqb_refl, Z.eqb_refl. reflexivity.
 Qed.
 
-Lemma ev_sim_b_rel e1 e2 : ev_sim_b e1 e2 = true <-> ev_rel e1 e2.
+Lemma ev_rel_sim_b e1 e2 : ev_rel e1 e2 -> ev_sim_b e1 e2 = true.
 Proof.
   destruct e1 as [a kn rg lv|a|g n ar|a], e2 as [a' kn' rg' lv'|a'|g' n' ar'|a']; cbn [ev_sim_b ev_rel];
-    try (split; [discriminate|intros []]).
-  - rewrite !andb_true_iff, Nat.eqb_eq, lv_list_eqb_eq, forallb_forall. split.
-    + intros [[H1 H2] H3]. repeat split; try assumption. intros f Hf. apply Z.eqb_eq. apply H3. exact Hf.
-    + intros (H1 & H2 & H3). repeat split; try assumption. intros f Hf. apply Z.eqb_eq. apply H3. exact Hf.
+    try (intro HF; contradiction).
+  - intros (H1 & H2 & H3 & _). rewrite !andb_true_iff, Nat.eqb_eq, lv_list_eqb_eq, forallb_forall.
+    repeat split; try assumption. intros f Hf. apply Z.eqb_eq. apply H3. exact Hf.
   - apply Nat.eqb_eq.
-  - rewrite !andb_true_iff, !Nat.eqb_eq. split.
-    + intros [[H1 H2] H3]. repeat split; try assumption. apply (list_eqb_eq Z.eqb Z.eqb_eq). exact H3.
-    + intros (H1 & H2 & H3). repeat split; try assumption. apply (list_eqb_eq Z.eqb Z.eqb_eq). exact H3.
+  - intros (H1 & H2 & H3). rewrite !andb_true_iff, !Nat.eqb_eq. repeat split; try assumption.
+    apply (list_eqb_eq Z.eqb Z.eqb_eq). exact H3.
   - apply Nat.eqb_eq.
 Qed.
 
-Lemma trace_sim_b_rel t1 t2 : trace_sim_b t1 t2 = true <-> Forall2 ev_rel t1 t2.
+Lemma trace_rel_sim_b t1 t2 : Forall2 ev_rel t1 t2 -> trace_sim_b t1 t2 = true.
 Proof.
-  unfold trace_sim_b. revert t2. induction t1 as [|e t1 IH]; intros [|e' t2]; cbn [list_eqb].
-  - split; [constructor|reflexivity].
-  - split; [discriminate|intros H; inversion H].
-  - split; [discriminate|intros H; inversion H].
-  - rewrite andb_true_iff, IH, ev_sim_b_rel. split.
-    + intros [H1 H2]. constructor; assumption.
-    + intros H. inversion H; subst. split; assumption.
+  unfold trace_sim_b. induction 1 as [|e e' t1 t2 He _ IH]; cbn [list_eqb]; [reflexivity|].
+  rewrite (ev_rel_sim_b _ _ He), IH. reflexivity.
 Qed.
 
 Lemma Forall2_rev {A B} (R : A -> B -> Prop) l1 l2 : Forall2 R l1 l2 -> Forall2 R (rev l1) (rev l2).
@@ -136,7 +129,7 @@ Corollary after_safe_traces post fs m1 m2 :
   trace_sim_b (rev (tr (exec_block orc post m1))) (rev (tr (exec_block orc post m2))) = true.
 Proof.
   intros Hs Hro HR. destruct (after_safe post fs m1 m2 Hs Hro HR) as [fs' (_ & _ & _ & _ & Ht)].
-  apply trace_sim_b_rel. apply Forall2_rev. exact Ht.
+  apply trace_rel_sim_b. apply Forall2_rev. exact Ht.
 Qed.
 End After.
 
